@@ -282,6 +282,35 @@ func (g *lockGen) plan() *BlockPlan {
 			locks = append(locks, Ev{"v": vid, "t": t, "amt": amt})
 		}
 	}
+	if rare(3) && !g.exodus {
+		// boundary-seeking locks for jailed (downgraded) validators whose jail time is over or about to be: either a top-up of a token
+		// they already hold (which must NOT re-admit them while another listed threshold is unmet, also one they hold nothing of),
+		// or exactly what is missing for every threshold (which must)
+		for vi, v := range st.Val {
+			if !v.Exists || v.Status != "Downgrade" || now+1 < v.JailedUntil || rare(3) {
+				continue
+			}
+			var held []int
+			for ti := range st.Tokens {
+				if v.Locking[ti] > 0 && st.Tokens[ti].Exists {
+					held = append(held, ti)
+				}
+			}
+			if rare(2) && len(held) > 0 {
+				ti := held[r.Intn(len(held))]
+				amt := int64(1 + r.Intn(3))
+				lk.Locks = append(lk.Locks, &goattypes.LockRequest{Validator: c.KR.Vals[vi].EthAddr(), Token: project.TokenAddrs[ti], Amount: big.NewInt(amt)})
+				locks = append(locks, Ev{"v": vi + 1, "t": ti + 1, "amt": amt})
+			} else {
+				for ti := range st.Tokens {
+					if miss := st.Thr[ti] - v.Locking[ti]; miss > 0 && st.Tokens[ti].Exists && !rare(6) {
+						lk.Locks = append(lk.Locks, &goattypes.LockRequest{Validator: c.KR.Vals[vi].EthAddr(), Token: project.TokenAddrs[ti], Amount: big.NewInt(miss)})
+						locks = append(locks, Ev{"v": vi + 1, "t": ti + 1, "amt": miss})
+					}
+				}
+			}
+		}
+	}
 	nUnl := 0
 	if rare(3) {
 		nUnl = 1 + r.Intn(2)
@@ -379,6 +408,16 @@ func (g *lockGen) plan() *BlockPlan {
 			id := g.id()
 			lk.Claims = append(lk.Claims, &goattypes.ClaimRequest{Id: uint64(id), Validator: addr, Recipient: rndAddr(r)})
 			claims = append(claims, Ev{"id": id, "v": vid})
+		}
+	}
+	if g.mode == "burst" && rare(6) && len(existing) > 0 {
+		// a burst of reward claims beyond the per-block delivery cap (16): the backlog is paid out over the following blocks,
+		// each claim exactly once, in order
+		for k := 17 + r.Intn(12); k > 0; k-- {
+			vi := existing[r.Intn(len(existing))]
+			id := g.id()
+			lk.Claims = append(lk.Claims, &goattypes.ClaimRequest{Id: uint64(id), Validator: c.KR.Vals[vi].EthAddr(), Recipient: rndAddr(r)})
+			claims = append(claims, Ev{"id": id, "v": vi + 1})
 		}
 	}
 	if g.boost && !g.exodus {
